@@ -24,6 +24,12 @@ chk("C17", "fault_enumeration",
     "Trusted: Go stdlib (bufio, time), the independent renderer/model in harness/c17.go, the simulated reader. Real code: changelog.Parse/ParseOne, version.Parse.",
     "DESIGN.md §5 C17")
 
+chk("C07", "exploration",
+    "deterministic simulation: seeded deb822 documents fed to four consumers over simulated streams (delivery schedules, EOF placement, truncation, EIO, arbitrary bytes), checked against a generator model and an independent reference reader; seeded search with tape minimisation and exact replay",
+    "Fault-free runs demand exact equality of paragraphs/fields/logical lines with the model for all four consumers under varied delivery schedules; fault runs check prefix equality, error propagation and the any-input invariant. Sampling: evidence, not proof.",
+    "Trusted: Go stdlib, the generator/reference reader in harness/deb822.go (cross-checked against each other every run), the simulated reader. Real code: control.ParagraphReader, Decoder, Unmarshal.",
+    "DESIGN.md §5 C07")
+
 def main():
     props = [json.loads(l) for l in open(os.path.join(HERE, "properties.jsonl"))]
     ids = [p["id"] for p in props]
